@@ -713,6 +713,7 @@ func generateSpecFile(p *packages.Package, pc *PkgContracts) (string, error) {
 				cl = append(cl, d)
 			}
 			cl = append(cl, fc.LoopExit[k]...)
+			cl = append(cl, fc.LoopStep[k]...)
 			for _, c := range cl {
 				ps, err := g.clauseParams(c.Text, sc, lb.Lbrace, sig, fmt.Sprintf("%s:%d", pc.File, c.Line))
 				if err != nil {
